@@ -122,7 +122,8 @@ P = {'id': 'C01',
               '255 bits); Coq proof: induction over the payload with a state-interval invariant, b-uniqueness of the renormalisation, Euclidean-division '
               'arithmetic (lia/nia on isolated lemmas), list lemmas for the stream layout and the container; refutation by vm_compute with the witness '
               'replayed on the real code; model/implementation differential check; direct round-trip oracle over every codec, preset, stream count and '
-              'training relation',
+              'training relation; oracle breadth: one encoder / decoder object per case driven through histories of different operations and payloads '
+              '(trained, cached and reloaded models), every preset and option field, size thresholds up to 28 MB, symbol-level APIs against the block APIs',
  'explanation': 'Unbounded round-trip theorems for Huffman order-0, contextual orders 0/1/2 and interleaved x1/x2/x4/x8 over arbitrary trees; oracle for SIMD '
                 '/ parallel / serialised forms. Unbounded round-trip theorems for rANS (n streams), FSE (single block and container, any normaliser) and LZ '
                 '(any sound match chooser); round-trip oracle for every entry point; eight defects found and repaired (findings/C01_b.txt).',
